@@ -289,6 +289,9 @@ const SAFE_KEYS: &[&str] = &[
     "aaaaaaaaaaaaaaaaaaaaaaaaaaaaaaaaaaaaaaaaaaaaaaaaaaaaaaaaaaaaaaaaaaaaaaaaaaaaaaaaaaaaaaaaaaaaaaaaaaaa",
     "sub", "iss", "aud", "iat", "nbf", "日本",
 ];
+/// names with characters that naive escaping gets wrong: combining mark (NFD), no-break space,
+/// zero-width space, C0 control, surrogate-pair character, quote and backslash
+const ODD_KEYS: &[&str] = &["pre\u{301}nom", "a\u{a0}b", "z\u{200b}", "\u{1}ctl", "tab\tk", "q\"uote", "back\\slash", "\u{1f600}", "nl\nk", "e\u{301}\u{302}"];
 const UNSAFE_KEYS: &[&str] = &["a/b", "~", "a~1b", "m~0n", "/", "//", "~0", "~1", "x/", "/x", "a~b/c"];
 
 fn gen_scalar(rng: &mut Rng, counter: &mut usize, sentinels: bool) -> Value {
@@ -296,7 +299,7 @@ fn gen_scalar(rng: &mut Rng, counter: &mut usize, sentinels: bool) -> Value {
         *counter += 1;
         return json!(format!("VAL*{}*", counter));
     }
-    match rng.below(14) {
+    match rng.below(17) {
         0 => Value::Null,
         1 => json!(true),
         2 => json!(false),
@@ -310,6 +313,9 @@ fn gen_scalar(rng: &mut Rng, counter: &mut usize, sentinels: bool) -> Value {
         10 => json!("..."),
         11 => json!("_sd"),
         12 => json!("jsu9yVulwQQlhFlM_3JlzMaSFzglhQG0DpfayQwLUK4"),
+        13 => json!(u64::MAX),
+        14 => json!(i64::MAX as u64 + 1),
+        15 => json!(i64::MIN),
         _ => json!("x"),
     }
 }
@@ -326,6 +332,8 @@ fn gen_key(rng: &mut Rng, cfg: &GenCfg, counter: &mut usize) -> String {
     }
     if cfg.unsafe_keys && rng.chance(1, 3) {
         rng.pick(UNSAFE_KEYS).to_string()
+    } else if rng.chance(1, 12) {
+        rng.pick(ODD_KEYS).to_string()
     } else {
         rng.pick(SAFE_KEYS).to_string()
     }
